@@ -1,0 +1,103 @@
+//go:build verif
+
+package workerpool
+
+// Contracts for the worker pool (property C16: task accounting), read by the verification machinery in
+// /verif. Comment-only file.
+//
+// * Task: run executes the worker function once and then marks the task done; markDone closes doneChan (which
+//   must still be open: a task is finished once) and invokes the done callback exactly once.
+// * Submit: the task is counted (increasePendingTasks) before it is published on the queue, so that the pending
+//   counter never under-counts accepted tasks; and the decision to accept it (IsRunning) must still be protected
+//   when the task is published - otherwise a Shutdown in between lets the dispatcher leave its loop (not running,
+//   queue empty) before the push, the counted task is never dispatched, the pending counter never returns to zero
+//   and the shutdown never completes.
+// * Group aggregation: the subscription closures installed by CreatePool / CreateGroup forward exactly the
+//   0 <-> non-zero transitions of a child's counter to the counter of the DIRECT parent (+1 / -1), which is what
+//   makes a group's PendingChildrenCounter the number of its children with pending work.
+
+/*@
+global counted Bool      -- Submit has counted the task it is about to publish (ghost)
+global ran IntArr        -- task -> number of times its worker function was invoked (ghost)
+global fin IntArr        -- task -> number of times its done callback was invoked (ghost)
+
+type Task
+  callback workerFunc()
+  callback doneCallback()
+
+type WorkerPool
+  monitor mutex level 3 guards isRunning
+
+-- net effect of Increase / Decrease on the counter itself (ghost delta: counter -> net change); what subscribers
+-- do in reaction is their own business (assumed contracts: the Counter is not part of this claim)
+global delta IntArr
+assume-func github.com/iotaledger/hive.go/runtime/syncutils.Counter.Increase(c) (r)
+  requires c != nil
+  modifies ghost(delta)
+  ensures delta == upd(old(delta), c, sel(old(delta), c) + 1)
+assume-func github.com/iotaledger/hive.go/runtime/syncutils.Counter.Decrease(c) (r)
+  requires c != nil
+  modifies ghost(delta)
+  ensures delta == upd(old(delta), c, sel(old(delta), c) - 1)
+assume-func github.com/iotaledger/hive.go/runtime/debug.GetEnabled() (r)
+  ensures true
+
+func newTask
+  ensures r0 != nil && fresh(r0) && r0.workerFunc == workerFunc && r0.doneCallback == doneCallback && r0.doneChan != nil && !closed(r0.doneChan)
+
+-- debug helper thread: only reads the task
+func Task.detectDeadlock
+  opt thread
+  requires t != nil
+  modifies everything
+
+func Task.markDone
+  requires t != nil && t.doneChan != nil && !closed(t.doneChan) && t.doneCallback != nil
+  modifies chans, ghost(fin)
+  ghost before call Task#doneCallback: fin = upd(fin, t, sel(fin, t) + 1)
+  ensures closed(t.doneChan) && sel(fin, t) == old(sel(fin, t)) + 1
+  ensures forall x Int :: x != t ==> sel(fin, x) == old(sel(fin, x))
+
+func Task.run
+  requires t != nil && t.doneChan != nil && !closed(t.doneChan) && t.doneCallback != nil && t.workerFunc != nil
+  modifies chans, ghost(fin), ghost(ran)
+  ghost before call Task#workerFunc: ran = upd(ran, t, sel(ran, t) + 1)
+  ensures closed(t.doneChan) && sel(fin, t) == old(sel(fin, t)) + 1 && sel(ran, t) == old(sel(ran, t)) + 1
+
+func WorkerPool.IsRunning
+  opt sequential
+  requires w != nil && unlocked(w.mutex)
+  ensures unlocked(w.mutex) && (r0 <==> w.isRunning)
+
+func WorkerPool.increasePendingTasks
+  requires w != nil && w.PendingTasksCounter != nil
+  modifies ghost(delta)
+  ensures delta == upd(old(delta), w.PendingTasksCounter, sel(old(delta), w.PendingTasksCounter) + 1)
+
+func WorkerPool.Submit
+  opt sequential
+  panics-when !w.isRunning && w.optPanicOnSubmitAfterShutdown
+  requires w != nil && w.PendingTasksCounter != nil && w.Queue != nil && unlocked(w.mutex)
+  modifies everything
+  ghost at entry: counted = false
+  ghost after call WorkerPool.increasePendingTasks: counted = true
+  ghost before call Stack.Push: assert counted
+  ghost before call Stack.Push: assert rheld(w.mutex)
+  ensures unlocked(w.mutex)
+
+-- 0 <-> non-zero transitions of the child go to the direct parent g
+func Group.CreatePool$1
+  requires g != nil && *g != nil && (*g).PendingChildrenCounter != nil
+  modifies ghost(delta)
+  ensures delta == upd(old(delta), (*g).PendingChildrenCounter, sel(old(delta), (*g).PendingChildrenCounter) + (oldValue == 0 ? 1 : (newValue == 0 ? 0 - 1 : 0)))
+func Group.CreateGroup$1
+  requires g != nil && *g != nil && (*g).PendingChildrenCounter != nil
+  modifies ghost(delta)
+  ensures delta == upd(old(delta), (*g).PendingChildrenCounter, sel(old(delta), (*g).PendingChildrenCounter) + (oldValue == 0 ? 1 : (newValue == 0 ? 0 - 1 : 0)))
+
+-- the signal channel is created once the options (worker count) have been applied
+func New$1
+  requires w != nil
+  modifies w.shutdownSignal
+  ensures w.shutdownSignal != nil
+@*/
